@@ -5,7 +5,7 @@ import numpy as np
 ID = "C02"
 PROPS_FILE = "theories/Props/C02.v"
 EXTRACT = ("theories/Extract/XC02.v", "c02",
-           ["entry_hull_ijv", "entry_hull_labels", "entry_hull_label", "entry_hull_ok", "entry_batch_ok"])
+           ["entry_hull_ijv", "entry_hull_ijv_w", "entry_hull_labels", "entry_hull_label", "entry_hull_ok", "entry_batch_ok"])
 PYX = {"_convex_hull.pyx": ["CONVEX", "convex_hull_ijv"]}
 RULE = ("corpus; every non-empty point set of a 3x3 and 3x4 grid (thorough: also 4x3, 2x5, 5x2) as one label through convex_hull_ijv, "
         "alone (slack 0, where the in-place guard can fire), followed by another label (whose first row an overrun would corrupt) and behind a filler label (slack > 0); random label images "
@@ -21,7 +21,10 @@ TRUSTED = ["modelled, not verified: np.lexsort / np.argsort (as sort by (v,j,i) 
            "start_j..end_j it reads)",
            "Python glue: block splitting for the label-alone comparison, the image -> (i,j,label) list of all "
            "positive pixels handed to the verified checker, indexes=None -> sorted distinct non-zero labels"]
-ASSUMPTIONS = ["coordinates and labels are non-negative and < 2^15 (no int32 overflow in the cross product)",
+ASSUMPTIONS = ["coordinates and labels are non-negative int32 values. The correspondence model is the kernel AS WRITTEN in C int "
+               "arithmetic (cross product and sentinel reduced to the signed 32-bit range, Model/HullW.v); it equals the exact model "
+               "when all coordinates are <= 46340 (C02_wrap_transfer, sharp: |cross| <= M*M < 2^31). Above that bound the kernel "
+               "loses extreme points: known finding F22",
                "the requested index list is repeat-free (as the property states); with a repeated label the code "
                "reads labels_ijv[n, 2] one row past the buffer"]
 CASE_TIMEOUT = 60
@@ -247,6 +250,37 @@ def _pair_ijv(rng):
     return {"fn": "ijv", "ijv": rows, "idx": labels if idx is None else idx}
 
 
+def _big_ijv(rng):
+    BIG = [46340, 46341, 46342, 50000, 60000, 65536, 100000, 2 ** 24, 2 ** 30, 2 ** 31 - 2, 2 ** 31 - 2, 2 ** 31 - 1]
+    rows = []
+    nl = int(rng.choice([1, 1, 2, 3]))
+    labels = sorted(set(int(x) for x in rng.randint(1, 9, nl)))
+    for l in labels:
+        big = rng.rand() < 0.75
+        hi_i = int(rng.choice(BIG)) if big else int(rng.choice([3, 10, 100]))
+        wj = int(rng.choice([1, 2, 3, 4, 6, 12, 60] + ([700, 3000] if rng.rand() < 0.1 else [])))
+        n = int(rng.choice([2, 3, 3, 4, 5, 8, 15]))
+        shape = rng.choice(["random", "corners", "vee", "line", "nearmax"])
+        for k in range(n):
+            j = int(rng.randint(0, wj + 1))
+            if shape == "corners":
+                i = int(rng.choice([0, hi_i, hi_i // 2, hi_i - 1]))
+            elif shape == "vee":
+                i = hi_i - int(abs(j - wj / 2.0) * (hi_i // max(1, wj))) if rng.rand() < 0.7 else int(rng.randint(0, hi_i + 1))
+            elif shape == "line":
+                i = (hi_i // max(1, wj)) * j
+            elif shape == "nearmax":
+                i = hi_i - int(rng.randint(0, 3))
+            else:
+                i = int(rng.randint(0, hi_i + 1))
+            rows.append([max(0, min(int(i), 2 ** 31 - 1)), j, l])
+    if rng.rand() < 0.8:
+        rows = [list(x) for x in sorted(set(map(tuple, rows)))]
+    rows = [rows[k] for k in rng.permutation(len(rows))]
+    idx = _index_list(rng, labels, True)
+    return {"fn": "ijv", "ijv": rows, "idx": labels if idx is None else idx}
+
+
 def _grid_sets(H, W):
     cells = [(i, j) for j in range(W) for i in range(H)]
     for bits in range(1, 1 << (H * W)):
@@ -329,6 +363,10 @@ def generate(ctx):
         else:
             c["ijv"] = []
         cases.append(c); ctx.count("malformed-ijv")
+    # coordinates beyond the int32 range of the kernel's cross product (finding F22): tall/wide point lists, mixed with
+    # small labels in the same call; rows up to 2^31-1 (columns only moderately large: the kernel allocates max_j+1 ints)
+    for _ in range(ctx.n(400, 3000)):
+        cases.append(_big_ijv(rng)); ctx.count("ijv-big-coordinates")
     # malformed: empty ijv is rejected by both sides
     cases.append({"fn": "ijv", "ijv": [], "idx": [1]}); ctx.count("malformed-empty-ijv")
     cases.append({"fn": "ijv", "ijv": [], "idx": []}); ctx.count("malformed-empty-ijv")
@@ -442,14 +480,21 @@ def _bad(o):
 
 # ------------------------------------------------------------------------------ model
 
+WRAP_BOUND = 46340
+
+
+def _big(case):
+    return case["fn"] == "ijv" and any(max(r[0], r[1]) > WRAP_BOUND for r in case["ijv"])
+
+
 def _marg(case):
     if case["fn"] == "ijv":
-        return "entry_hull_ijv", [case["ijv"], case["idx"]]
+        return "entry_hull_ijv_w", [case["ijv"], case["idx"]]
     return "entry_hull_labels", [case["img"], -1 if case["idx"] is None else case["idx"]]
 
 
 def model(ctx, cases, outs):
-    jobs = {"entry_hull_ijv": [], "entry_hull_labels": []}
+    jobs = {"entry_hull_ijv_w": [], "entry_hull_labels": []}
     where = []
     for k, c in enumerate(cases):
         e, a = _marg(c)
@@ -470,7 +515,7 @@ def model(ctx, cases, outs):
     return mouts
 
 
-def _cmp(o, m, what, idx=None):
+def _cmp(o, m, what, idx=None, big=False):
     if isinstance(m, dict):
         return "%s: model failed: %s" % (what, m)
     if m == -1:
@@ -480,7 +525,7 @@ def _cmp(o, m, what, idx=None):
     rows, counts, over, ncol = m[:4]
     if len(m) > 4 and idx is not None and m[4] != idx:
         return "%s: model's index list %s differs from the harness' %s" % (what, m[4], idx)
-    if over:
+    if over and not big:
         return "%s: model predicts that the in-place output overruns the label's own input rows" % what
     if rows != o["rows"] or counts != o["counts"] or ncol != o["ncol"]:
         return "%s: impl rows %s counts %s ncol %s / model rows %s counts %s ncol %s" % (
@@ -489,7 +534,7 @@ def _cmp(o, m, what, idx=None):
 
 
 def compare(case, out, m):
-    d = _cmp(out, m["main"], "in company", _idx_of(case) if case["fn"] == "labels" else None)
+    d = _cmp(out, m["main"], "in company", _idx_of(case) if case["fn"] == "labels" else None, _big(case))
     if d:
         return d
     if _bad(out):
@@ -497,7 +542,7 @@ def compare(case, out, m):
     for n, a in enumerate(out["alone"]):
         if a is None:
             continue
-        d = _cmp(a, m["alone"].get(n), "label #%d alone" % n)
+        d = _cmp(a, m["alone"].get(n), "label #%d alone" % n, None, _big(case))
         if d:
             return d
     return None
@@ -539,8 +584,7 @@ def check(ctx, cases, outs):
     for k, r in zip(todo, ctx.run_model("entry_batch_ok", args) if args else []):
         o = outs[k]
         if r != 1:
-            res[k] = ("some requested label's block is not the hull polygon of its pixels, in request order "
-                      "(Spec.HullSpec.batch_ok false)")
+            res[k] = CHECK_FAIL
             continue
         # independence: each label alone gives exactly its block
         off = 0
@@ -558,6 +602,42 @@ def check(ctx, cases, outs):
     return res
 
 
+CHECK_FAIL = ("some requested label's block is not the hull polygon of its pixels, in request order "
+              "(Spec.HullSpec.batch_ok false)")
+
+
+def attribute(ctx, case, out, clause):
+    """F22 iff the as-written (int32-wrapped) model reproduces the implementation's output exactly AND the exact model
+    gives a different answer on this input; anything else stays a violation."""
+    if case.get("fn") != "ijv" or _bad(out) or _malformed(case) or not _big(case):
+        return None
+    if not (clause == CHECK_FAIL or clause.startswith("hull of label")):
+        return None
+    w = ctx.run_model("entry_hull_ijv_w", [[case["ijv"], case["idx"]]])[0]
+    e = ctx.run_model("entry_hull_ijv", [[case["ijv"], case["idx"]]])[0]
+    if not isinstance(w, list) or not isinstance(e, list) or len(w) < 4:
+        return None
+    same_as_written = (w[0] == out["rows"] and w[1] == out["counts"])
+    exact_differs = (e[0] != out["rows"] or e[1] != out["counts"])
+    exact_ok = ctx.run_model("entry_batch_ok", [[case["ijv"], case["idx"], e[0], e[1]]])[0] == 1
+    return "F22" if (same_as_written and exact_differs and exact_ok) else None
+
+
+def reproduce_finding(ctx, finding):
+    """The recorded witness (the 46341 triangle) must still fail the verified checker on the implementation's output; the
+    model attribution is done on the small-column witness of the same defect (the models walk every column one by one, a
+    46342-column witness costs minutes)."""
+    case = finding["witness"]
+    out = ctx.run_impl([case])[0]
+    v = check(ctx, [case], [out])[0]
+    if not v or _bad(out):
+        return False
+    small = finding.get("witness_small_columns", case)
+    out2 = ctx.run_impl([small])[0]
+    v2 = check(ctx, [small], [out2])[0]
+    return bool(v2) and attribute(ctx, small, out2, v2) == finding["id"]
+
+
 def nontrivial(case, out):
     if _bad(out) or _malformed(case):
         return False
@@ -573,7 +653,7 @@ def kernel_crosscheck(ctx, cases, outs):
     idx = idx[::max(1, len(idx) // 40)][:40]
     args = [[cases[k]["ijv"], cases[k]["idx"]] for k in idx]
     exp = [[outs[k]["rows"], outs[k]["counts"], 0, 3] for k in idx]
-    r = ctx.coq_eval_eq("Model.Hull", "entry_hull_ijv", args, exp, tag="ijv")
+    r = ctx.coq_eval_eq("Model.HullW", "entry_hull_ijv_w", args, exp, tag="ijv")
     bad = [k for k, b in zip(idx, r) if b is not True]
     idl = [k for k, c in enumerate(cases) if c["fn"] == "labels" and not _bad(outs[k])
            and len(c["img"]) * len(c["img"][0]) <= 30][:20]
